@@ -468,6 +468,10 @@ where
             break;
         }
     }
+    if tie && boundary != I::ZERO {
+        // the digits ran out before the expansion of the tie did, so the value is below the tie
+        return Some(floor);
+    }
     if tie && !floor.is_odd() {
         return Some(floor);
     }
